@@ -13,7 +13,6 @@ import (
 	"os"
 	"regexp"
 	"runtime"
-	"runtime/pprof"
 	"sort"
 	"strings"
 	"sync"
@@ -702,7 +701,6 @@ func universeOf(ops []opD, preload int) []string {
 }
 
 func buildConfigs(tier string) []*config {
-	nS := len(singles(keys))
 	base := append(append(singles(keys), func() []opD {
 		var o []opD
 		for _, r := range ranges {
@@ -711,18 +709,17 @@ func buildConfigs(tier string) []*config {
 		return o
 	}()...), curated()...)
 	full := append(append([]opD{}, base...), crossProduct()...)
-	_ = nS
 	quick := tier != "thorough"
 	var cfgs []*config
 	c := &config{name: "empty/full-alphabet", ops: full, nBFS: len(base), depth: 3, sweepDepth: 1}
 	if !quick {
-		c.depth, c.sweepDepth = 4, 2
+		c.depth, c.sweepDepth = 4, 3
 	}
 	cfgs = append(cfgs, c)
 	c = &config{name: "preload-101-keys", preload: 101, ops: preloadOps(), depth: 2, sweepDepth: -1}
 	c.nBFS = len(c.ops)
 	if !quick {
-		c.depth = 3
+		c.depth = 4
 	}
 	cfgs = append(cfgs, c)
 	c = &config{name: "empty/reopen-before-every-step", reopenEach: true, ops: base, nBFS: len(base), depth: 2, sweepDepth: -1}
@@ -731,7 +728,7 @@ func buildConfigs(tier string) []*config {
 	}
 	cfgs = append(cfgs, c)
 	if !quick {
-		c = &config{name: "empty/reduced-alphabet", ops: reducedOps(), depth: 5, sweepDepth: -1}
+		c = &config{name: "empty/reduced-alphabet", ops: reducedOps(), depth: 7, sweepDepth: -1}
 		c.nBFS = len(c.ops)
 		cfgs = append(cfgs, c)
 	}
@@ -746,20 +743,6 @@ func main() {
 	flag.Parse()
 	oxh.Quiet()
 	metric.VerifUseNoopMeter()
-	if f := os.Getenv("VERIF_CPUPROFILE"); f != "" {
-		pf, _ := os.Create(f)
-		_ = pprof.StartCPUProfile(pf)
-		runtime.SetBlockProfileRate(10000)
-		runtime.SetMutexProfileFraction(10)
-		defer func() {
-			bf, _ := os.Create(f + ".block")
-			_ = pprof.Lookup("block").WriteTo(bf, 0)
-			bf.Close()
-			mf, _ := os.Create(f + ".mutex")
-			_ = pprof.Lookup("mutex").WriteTo(mf, 0)
-			mf.Close()
-		}()
-	}
 	run := ev.NewRun("C12", "model_checking")
 	cfgs := buildConfigs(run.Tier)
 	if d := os.Getenv("VERIF_DEPTH"); d != "" {
@@ -796,15 +779,6 @@ func main() {
 		"timestamps are not part of the statement and are not compared",
 	}
 	run.DistinctN(run.Get("distinct_states") + run.Get("sweep_result_states"))
-	pprof.StopCPUProfile()
-	if f := os.Getenv("VERIF_CPUPROFILE"); f != "" {
-		bf, _ := os.Create(f + ".block")
-		_ = pprof.Lookup("block").WriteTo(bf, 0)
-		bf.Close()
-		mf, _ := os.Create(f + ".mutex")
-		_ = pprof.Lookup("mutex").WriteTo(mf, 0)
-		mf.Close()
-	}
 	os.Exit(run.Finish("BFS over all sequences of write requests up to depth[config] from the per-configuration alphabet, model compared after every step (per-operation statuses, versions, Get of every key, List, engine dump); plus every request of the (1-2 puts)x(0-1 deletes)x(0-1 range deletes) cross product applied in every distinct state reachable by <= sweepDepth single operations; a state is distinct when its canonical dump (keys, values, version ids, modification counts, version counter) differs"))
 }
 
